@@ -1,0 +1,210 @@
+//go:build verif
+
+// Contracts for govc (/verif): C27 "Membership follows the pledge/accept/cancel/remove lifecycle" (storage/badger_node.go).
+// Comment-only file. T-KV vocabulary and key-space conventions: zz_contracts_c03_verif.go; iterator model: /verif/govc/trusted/badger.spec.
+
+package storage
+
+//@ -- ═════════ the membership history: NODESTATEQUEUE | be64(timestamp) | signer spend key  ->  payee spend key | transaction | state ═════════
+//@ -- Key space ASSUMED like that of zz_contracts_c03_verif.go: "NODESTATEQUEUE" is prefix-free among the prefixes of the snapshots DB (its nearest
+//@ -- neighbour "NODEOPERATION" differs at byte 4), the payload has the fixed width 8 + 32, so the constructor is injective and parsing inverts
+//@ -- it (keynum = timestamp, keyhid = id of the 32 signer bytes). Byte order: the big-endian timestamp is compared first.
+//@ -- (NodeKeyId kind 14, its order axiom, IsNodeKey and the constructor nodeStateQueueKey: zz_contracts_keyspace_verif.go)
+//@ -- the record stored under a node key: decoders of the value id (the codec pair nodeEntryValue / nodePayee, nodeTransaction, nodeState is assumed below)
+//@ uninterp NodePayeeOf(v mathint) crypto.Key
+//@ uninterp NodeTxOf(v mathint) crypto.Hash
+//@ uninterp NodeStateOf(v mathint) string
+//@ -- ids of 32-byte keys are injective (id == content), like common.HashOfVal for hashes
+//@ uninterp KeyOfVal(v mathint) crypto.Key
+//@ axiom forall k crypto.Key :: {kvval(k)} KeyOfVal(kvval(k)) == k
+
+//@ assume func nodeEntryValue
+//@   modifies nothing
+//@   ensures fresh(result) && len(result) >= 64 && NodePayeeOf(kvval(result)) == payee && NodeTxOf(kvval(result)) == tx && NodeStateOf(kvval(result)) == state
+//@ -- the parsers slice at fixed offsets: they panic on anything shorter than a node key / a 64-byte value (NodeHistOK below); the view keys of the
+//@ -- returned address are derived from the spend key and play no role here
+//@ assume func nodeSignerFromStateKey
+//@   requires [node-key] IsNodeKey(kvkey(key))
+//@   modifies nothing
+//@   ensures kvval(result0.PublicSpendKey) == keyhid(kvkey(key)) && result1 == keynum(kvkey(key))
+//@ assume func nodePayee
+//@   requires [width] len(ival) >= 64
+//@   modifies nothing
+//@   ensures result.PublicSpendKey == NodePayeeOf(kvval(ival))
+//@ assume func nodeTransaction
+//@   requires [width] len(ival) >= 64
+//@   modifies nothing
+//@   ensures result == NodeTxOf(kvval(ival))
+//@ assume func nodeState
+//@   requires [width] len(ival) >= 64
+//@   modifies nothing
+//@   ensures result == NodeStateOf(kvval(ival))
+
+//@ -- NodeHistOK: representation invariant of the snapshots DB -- every entry whose key starts with NODESTATEQUEUE is a node record with a value of
+//@ -- at least 64 bytes. The four writers below are the only functions that Set such a key; they preserve it ([keeps-ok]).
+//@ spec NodeHistOK(t badger.Txn) bool = forall k mathint :: {badger.kvget(t, k)} badger.kvget(t, k) != 0 && badger.keypfx(k, strkey(graphPrefixNodeStateQueue)) == 0 ==> IsNodeKey(k) && badger.vallen(badger.kvget(t, k)) >= 64
+//@ -- HasRec(t, k, thr): k is a record of the history t with timestamp <= thr
+//@ spec HasRec(t badger.Txn, k mathint, thr mathint) bool = badger.kvget(t, k) != 0 && badger.keypfx(k, strkey(graphPrefixNodeStateQueue)) == 0 && keynum(k) <= thr
+//@ -- NK(n): the key of the record a Node object was read from; Rec(t, n): n is the decoding of the record stored under NK(n)
+//@ spec NK(n *common.Node) mathint = NodeKeyId(n.Timestamp, kvval(n.Signer.PublicSpendKey))
+//@ spec Rec(t badger.Txn, n *common.Node) bool = n != nil && U64(n.Timestamp) && KeyOfVal(kvval(n.Signer.PublicSpendKey)) == n.Signer.PublicSpendKey && badger.kvget(t, NK(n)) != 0 && n.Payee.PublicSpendKey == NodePayeeOf(badger.kvget(t, NK(n))) &&
+//@     n.Transaction == NodeTxOf(badger.kvget(t, NK(n))) && n.State == NodeStateOf(badger.kvget(t, NK(n)))
+
+//@ -- ═════════ reading the history ═════════
+//@ func readAllNodes$1
+//@   property C27
+//@   requires 0 <= i && i < len(nodes) && 0 <= j && j < len(nodes) && nodes[i] != nil && nodes[j] != nil
+//@   pure
+//@   ensures result <==> nodes[i].Timestamp < nodes[j].Timestamp
+
+//@ -- readAllNodes(withState == true): ALL records with timestamp <= threshold, each decoded, in strictly increasing key order (timestamp first).
+//@ -- The explicit panics (value read error, zero timestamp, malformed order) are reactions to a corrupted store: maypanic.
+//@ func readAllNodes
+//@   property C27
+//@   mode append-back
+//@   maypanic
+//@   requires txn != nil && NodeHistOK(*txn)
+//@   modifies nothing
+//@   ensures [records] withState ==> forall i int :: {result[i]} 0 <= i && i < len(result) ==> Rec(*txn, result[i]) && result[i].Timestamp <= threshold
+//@   ensures [ordered] withState ==> forall i, j int :: {result[i], result[j]} 0 <= i && i < j && j < len(result) ==> badger.keylt(NK(result[i]), NK(result[j]))
+//@   ensures [complete] withState ==> forall k mathint :: {badger.kvget(*txn, k)} HasRec(*txn, k, threshold) ==> exists i int :: {result[i]} 0 <= i && i < len(result) && NK(result[i]) == k
+//@   -- withState == false: the second half (a map keyed by the hash of the signer address keeps the LAST record per signer; the map's values are
+//@   -- collected and sorted by timestamp) is NOT proved -- map iteration, sort.Slice and collision freedom of Address.Hash would all be needed.
+//@   -- ASSUMED (by inspection of the code): one decoded record per signer that has a record <= threshold, namely that signer's latest one.
+//@   assumes [latest-records] !withState ==> forall i int :: {result[i]} 0 <= i && i < len(result) ==> Rec(*txn, result[i]) && result[i].Timestamp <= threshold && SignerLatest(*txn, threshold, NK(result[i]))
+//@   assumes [latest-complete] !withState ==> forall k mathint :: {badger.kvget(*txn, k)} HasRec(*txn, k, threshold) ==> exists i int :: {result[i]} 0 <= i && i < len(result) && kvval(result[i].Signer.PublicSpendKey) == keyhid(k)
+//@   loop 0 invariant [fresh] fresh(nodes)
+//@   loop 0 invariant [cursor] badger.itkey(*it) != 0 ==> IsNodeKey(badger.itkey(*it)) && badger.itget(it, badger.itkey(*it)) != 0
+//@   loop 0 invariant [records] forall m int :: {nodes[m]} 0 <= m && m < len(nodes) ==> allocated(nodes[m]) && Rec(*txn, nodes[m]) && nodes[m].Timestamp <= threshold &&
+//@       (badger.itkey(*it) == 0 || badger.keylt(NK(nodes[m]), badger.itkey(*it)))
+//@   loop 0 invariant [ordered] forall a, b int :: {nodes[a], nodes[b]} 0 <= a && a < b && b < len(nodes) ==> badger.keylt(NK(nodes[a]), NK(nodes[b]))
+//@   loop 0 invariant [complete] forall k mathint :: {badger.itget(it, k)} IsNodeKey(k) && badger.itget(it, k) != 0 && keynum(k) <= threshold && (badger.itkey(*it) == 0 || badger.keylt(k, badger.itkey(*it))) ==>
+//@       exists m int :: {nodes[m]} 0 <= m && m < len(nodes) && NK(nodes[m]) == k
+//@   loop 2 invariant [fresh] fresh(nodes)
+
+//@ -- ═════════ the four transitions ═════════
+//@ -- IsLast(t, thr, k): k is the LAST record of the history with timestamp <= thr -- "the node that is currently pledging" is the signer of the
+//@ -- last record when that record's state is PLEDGING (a pledge is only recorded while every node's latest state is final, see writeNodePledge).
+//@ -- SignerLatest(t, thr, k): k is the latest record of ITS signer.
+//@ spec IsLast(t badger.Txn, thr mathint, k mathint) bool = HasRec(t, k, thr) && forall k2 mathint :: {badger.kvget(t, k2)} HasRec(t, k2, thr) ==> !badger.keylt(k, k2)
+//@ spec SignerLatest(t badger.Txn, thr mathint, k mathint) bool = HasRec(t, k, thr) && forall k2 mathint :: {badger.kvget(t, k2)} HasRec(t, k2, thr) && keyhid(k2) == keyhid(k) ==> !badger.keylt(k, k2)
+//@ spec FinalState(st string) bool = st == common.NodeStateAccepted || st == common.NodeStateRemoved || st == common.NodeStateCancelled
+//@ -- Appended(a, b, K, payee, tx, st): the view b is the view a plus the one record K -> (payee, tx, st)
+//@ spec Appended(a badger.Txn, b badger.Txn, K mathint, payee crypto.Key, tx crypto.Hash, st string) bool =
+//@     (forall k mathint :: {badger.kvget(b, k)} k != K ==> badger.kvget(b, k) == badger.kvget(a, k)) && badger.kvget(b, K) != 0 && badger.vallen(badger.kvget(b, K)) >= 64 &&
+//@     NodePayeeOf(badger.kvget(b, K)) == payee && NodeTxOf(badger.kvget(b, K)) == tx && NodeStateOf(badger.kvget(b, K)) == st
+//@ -- NonEmpty: the history has a record up to thr (the genesis nodes are written at the genesis timestamp; every later operation carries a
+//@ -- later timestamp) -- without it `nodes[len(nodes)-1]` panics. Window: timestamp + 12h does not wrap (timestamps are UnixNano < 2^63).
+//@ spec NonEmpty(t badger.Txn, thr mathint) bool = exists k mathint :: {badger.kvget(t, k)} HasRec(t, k, thr)
+//@ spec Window(ts mathint) bool = ts + 43200000000000 < 18446744073709551616
+
+//@ -- "It only accepts ... the node that is currently pledging, with matching keys": the last record (<= timestamp + 12h) is PLEDGING and carries
+//@ -- exactly this signer and payee; then one ACCEPTED record (signer, timestamp) -> (payee, tx) is appended. The genesis accepts are unconditional.
+//@ func writeNodeAccept
+//@   property C27
+//@   requires txn != nil && NodeHistOK(*txn) && Window(timestamp)
+//@   requires [history] !genesis ==> NonEmpty(*txn, timestamp + 43200000000000)
+//@   modifies *txn
+//@   ensures [refused] err != nil ==> *txn == old(*txn)
+//@   ensures [guard] err == nil && !genesis ==> exists k mathint :: {badger.kvget(old(*txn), k)} IsLast(old(*txn), timestamp + 43200000000000, k) &&
+//@       NodeStateOf(badger.kvget(old(*txn), k)) == common.NodeStatePledging && keyhid(k) == kvval(signer) && NodePayeeOf(badger.kvget(old(*txn), k)) == payee
+//@   ensures [appended] err == nil ==> Appended(old(*txn), *txn, NodeKeyId(timestamp, kvval(signer)), payee, tx, common.NodeStateAccepted)
+//@   ensures [keeps-ok] NodeHistOK(*txn)
+//@   ensures [ghost-frame] forall k mathint :: {badger.kvget(*txn, k)} keykind(k) == 2 ==> badger.kvget(*txn, k) == old(badger.kvget(*txn, k)) -- what C04's writeUTXO relies on
+//@   ensures [c15-frame] forall k mathint :: {badger.kvget(*txn, k)} keykind(k) != 14 ==> badger.kvget(*txn, k) == old(badger.kvget(*txn, k)) -- C15 (formerly assumed in zz_contracts_c04_verif.go): the single Set writes a key of kind 14
+//@   ensures [c15-fail] err != nil ==> *txn == old(*txn)
+//@   ensures [db] badger.txndb(*txn) == old(badger.txndb(*txn))
+//@   -- proof guidance (checked, then assumed): the list is non-empty and its last element is the last record of the history
+//@   hint at "last := nodes[len(nodes)-1]" [nonempty] len(nodes) > 0
+//@   hint at "last := nodes[len(nodes)-1]" [last-rec] HasRec(*txn, NK(nodes[len(nodes)-1]), timestamp + 43200000000000)
+//@   hint at "last := nodes[len(nodes)-1]" [last] forall k2 mathint :: {badger.kvget(*txn, k2)} HasRec(*txn, k2, timestamp + 43200000000000) ==> !badger.keylt(NK(nodes[len(nodes)-1]), k2)
+
+//@ -- "It only ... cancels the node that is currently pledging, with matching keys"
+//@ func writeNodeCancel
+//@   property C27
+//@   requires txn != nil && NodeHistOK(*txn) && Window(timestamp)
+//@   requires [history] NonEmpty(*txn, timestamp + 43200000000000)
+//@   modifies *txn
+//@   ensures [refused] err != nil ==> *txn == old(*txn)
+//@   ensures [guard] err == nil ==> exists k mathint :: {badger.kvget(old(*txn), k)} IsLast(old(*txn), timestamp + 43200000000000, k) &&
+//@       NodeStateOf(badger.kvget(old(*txn), k)) == common.NodeStatePledging && keyhid(k) == kvval(signer) && NodePayeeOf(badger.kvget(old(*txn), k)) == payee
+//@   ensures [appended] err == nil ==> Appended(old(*txn), *txn, NodeKeyId(timestamp, kvval(signer)), payee, tx, common.NodeStateCancelled)
+//@   ensures [keeps-ok] NodeHistOK(*txn)
+//@   ensures [ghost-frame] forall k mathint :: {badger.kvget(*txn, k)} keykind(k) == 2 ==> badger.kvget(*txn, k) == old(badger.kvget(*txn, k))
+//@   ensures [c15-frame] forall k mathint :: {badger.kvget(*txn, k)} keykind(k) != 14 ==> badger.kvget(*txn, k) == old(badger.kvget(*txn, k)) -- C15 (formerly assumed in zz_contracts_c04_verif.go): the single Set writes a key of kind 14
+//@   ensures [c15-fail] err != nil ==> *txn == old(*txn)
+//@   ensures [db] badger.txndb(*txn) == old(badger.txndb(*txn))
+//@   -- proof guidance (checked, then assumed): the list is non-empty and its last element is the last record of the history
+//@   hint at "last := nodes[len(nodes)-1]" [nonempty] len(nodes) > 0
+//@   hint at "last := nodes[len(nodes)-1]" [last-rec] HasRec(*txn, NK(nodes[len(nodes)-1]), timestamp + 43200000000000)
+//@   hint at "last := nodes[len(nodes)-1]" [last] forall k2 mathint :: {badger.kvget(*txn, k2)} HasRec(*txn, k2, timestamp + 43200000000000) ==> !badger.keylt(NK(nodes[len(nodes)-1]), k2)
+
+//@ -- "only removes a currently accepted node with matching keys": nobody is pledging (the last record is in a final state), and the LATEST
+//@ -- record of this signer is ACCEPTED with exactly this payee.
+//@ func writeNodeRemove
+//@   property C27
+//@   requires txn != nil && NodeHistOK(*txn) && Window(timestamp)
+//@   requires [history] NonEmpty(*txn, timestamp + 43200000000000)
+//@   modifies *txn
+//@   ensures [refused] err != nil ==> *txn == old(*txn)
+//@   ensures [nobody-pledging] err == nil ==> exists k mathint :: {badger.kvget(old(*txn), k)} IsLast(old(*txn), timestamp + 43200000000000, k) && FinalState(NodeStateOf(badger.kvget(old(*txn), k)))
+//@   ensures [guard] err == nil ==> exists k mathint :: {badger.kvget(old(*txn), k)} SignerLatest(old(*txn), timestamp + 43200000000000, k) && keyhid(k) == kvval(signer) &&
+//@       NodeStateOf(badger.kvget(old(*txn), k)) == common.NodeStateAccepted && NodePayeeOf(badger.kvget(old(*txn), k)) == payee
+//@   ensures [appended] err == nil ==> Appended(old(*txn), *txn, NodeKeyId(timestamp, kvval(signer)), payee, tx, common.NodeStateRemoved)
+//@   ensures [keeps-ok] NodeHistOK(*txn)
+//@   ensures [ghost-frame] forall k mathint :: {badger.kvget(*txn, k)} keykind(k) == 2 ==> badger.kvget(*txn, k) == old(badger.kvget(*txn, k))
+//@   ensures [c15-frame] forall k mathint :: {badger.kvget(*txn, k)} keykind(k) != 14 ==> badger.kvget(*txn, k) == old(badger.kvget(*txn, k)) -- C15 (formerly assumed in zz_contracts_c04_verif.go): the single Set writes a key of kind 14
+//@   ensures [c15-fail] err != nil ==> *txn == old(*txn)
+//@   ensures [db] badger.txndb(*txn) == old(badger.txndb(*txn))
+//@   -- proof guidance (checked, then assumed): the list is non-empty and its last element is the last record of the history
+//@   hint at "last := nodes[len(nodes)-1]" [nonempty] len(nodes) > 0
+//@   hint at "last := nodes[len(nodes)-1]" [last-rec] HasRec(*txn, NK(nodes[len(nodes)-1]), timestamp + 43200000000000)
+//@   hint at "last := nodes[len(nodes)-1]" [last] forall k2 mathint :: {badger.kvget(*txn, k2)} HasRec(*txn, k2, timestamp + 43200000000000) ==> !badger.keylt(NK(nodes[len(nodes)-1]), k2)
+//@   hint at "if node == nil {" [by-id] forall j int :: {nodes[j]} 0 <= j && j < len(nodes) && kvval(nodes[j].Signer.PublicSpendKey) == kvval(signer) ==> node != nil && !badger.keylt(NK(node), NK(nodes[j]))
+//@   hint at "if node == nil {" [signer-latest] node != nil ==> HasRec(*txn, NK(node), timestamp + 43200000000000) && keyhid(NK(node)) == kvval(signer) &&
+//@       forall k2 mathint :: {badger.kvget(*txn, k2)} HasRec(*txn, k2, timestamp + 43200000000000) && keyhid(k2) == kvval(signer) ==> !badger.keylt(NK(node), k2)
+//@   loop 0 invariant [found] node != nil ==> (exists j int :: {nodes[j]} 0 <= j && j <= rangeindex && nodes[j] == node) && node.Signer.PublicSpendKey == signer
+//@   loop 0 invariant [latest] forall j int :: {nodes[j]} 0 <= j && j <= rangeindex && nodes[j].Signer.PublicSpendKey == signer ==> node != nil && !badger.keylt(NK(node), NK(nodes[j]))
+
+//@ -- "only records a pledge for a new signer while no other node is pledging" / "signer keys never repeat across nodes": over the history up to
+//@ -- timestamp + 12h, every signer's latest record is in a final state ([nobody-pledging]), NO record at all carries this signer key
+//@ -- ([new-signer]) and no signer's latest record carries this transaction ([new-tx]); then one PLEDGING record is appended.
+//@ -- Uses the ASSUMED half of readAllNodes' contract (latest record per signer).
+//@ func writeNodePledge
+//@   property C27
+//@   requires txn != nil && NodeHistOK(*txn) && Window(timestamp)
+//@   modifies *txn
+//@   ensures [refused] err != nil ==> *txn == old(*txn)
+//@   ensures [nobody-pledging] err == nil ==> forall k mathint :: {badger.kvget(old(*txn), k)} SignerLatest(old(*txn), timestamp + 43200000000000, k) ==> FinalState(NodeStateOf(badger.kvget(old(*txn), k)))
+//@   ensures [new-signer] err == nil ==> forall k mathint :: {badger.kvget(old(*txn), k)} HasRec(old(*txn), k, timestamp + 43200000000000) ==> keyhid(k) != kvval(signer)
+//@   ensures [new-tx] err == nil ==> forall k mathint :: {badger.kvget(old(*txn), k)} SignerLatest(old(*txn), timestamp + 43200000000000, k) ==> NodeTxOf(badger.kvget(old(*txn), k)) != tx
+//@   ensures [appended] err == nil ==> Appended(old(*txn), *txn, NodeKeyId(timestamp, kvval(signer)), payee, tx, common.NodeStatePledging)
+//@   ensures [keeps-ok] NodeHistOK(*txn)
+//@   ensures [ghost-frame] forall k mathint :: {badger.kvget(*txn, k)} keykind(k) == 2 ==> badger.kvget(*txn, k) == old(badger.kvget(*txn, k))
+//@   ensures [c15-frame] forall k mathint :: {badger.kvget(*txn, k)} keykind(k) != 14 ==> badger.kvget(*txn, k) == old(badger.kvget(*txn, k)) -- C15 (formerly assumed in zz_contracts_c04_verif.go): the single Set writes a key of kind 14
+//@   ensures [c15-fail] err != nil ==> *txn == old(*txn)
+//@   ensures [db] badger.txndb(*txn) == old(badger.txndb(*txn))
+//@   loop 0 invariant [final] forall j int :: {nodes[j]} 0 <= j && j <= rangeindex ==> FinalState(nodes[j].State)
+//@   loop 1 invariant [final] forall j int :: {nodes[j]} 0 <= j && j < len(nodes) ==> FinalState(nodes[j].State)
+//@   loop 1 invariant [fresh-keys] forall j int :: {nodes[j]} 0 <= j && j <= rangeindex ==> nodes[j].Signer.PublicSpendKey != signer && nodes[j].Transaction != tx
+//@   -- proof guidance: a signer's latest record IS the element the list holds for that signer
+//@   hint at "key := nodeStateQueueKey(signer, timestamp)" [is-listed] forall k mathint :: {badger.kvget(*txn, k)} SignerLatest(*txn, timestamp + 43200000000000, k) ==> exists i int :: {nodes[i]} 0 <= i && i < len(nodes) && NK(nodes[i]) == k
+
+//@ -- ═════════ observation point: one read-only transaction over the committed state ═════════
+//@ spec DbNodeHistOK(d badger.DB) bool = forall k mathint :: {badger.dbget(d, k)} badger.dbget(d, k) != 0 && badger.keypfx(k, strkey(graphPrefixNodeStateQueue)) == 0 ==> IsNodeKey(k) && badger.vallen(badger.dbget(d, k)) >= 64
+//@ spec DbHasRec(d badger.DB, k mathint, thr mathint) bool = badger.dbget(d, k) != 0 && badger.keypfx(k, strkey(graphPrefixNodeStateQueue)) == 0 && keynum(k) <= thr
+//@ spec DbRec(d badger.DB, n *common.Node) bool = n != nil && U64(n.Timestamp) && badger.dbget(d, NK(n)) != 0 && n.Payee.PublicSpendKey == NodePayeeOf(badger.dbget(d, NK(n))) &&
+//@     n.Transaction == NodeTxOf(badger.dbget(d, NK(n))) && n.State == NodeStateOf(badger.dbget(d, NK(n)))
+//@ spec DbSignerLatest(d badger.DB, thr mathint, k mathint) bool = DbHasRec(d, k, thr) && forall k2 mathint :: {badger.dbget(d, k2)} DbHasRec(d, k2, thr) && keyhid(k2) == keyhid(k) ==> !badger.keylt(k, k2)
+//@ -- "each node's latest state is the one reported": ReadAllNodes(threshold, false) reports, for every signer with a record <= threshold, the
+//@ -- decoding of that signer's LATEST record ([latest-*]: derived from the ASSUMED half of readAllNodes); with state: the whole history (proved).
+//@ func (s *BadgerStore) ReadAllNodes
+//@   property C27
+//@   maypanic
+//@   requires s != nil && s.snapshotsDB != nil && DbNodeHistOK(*s.snapshotsDB)
+//@   modifies nothing
+//@   ensures [records] withState ==> forall i int :: {result[i]} 0 <= i && i < len(result) ==> DbRec(*s.snapshotsDB, result[i]) && result[i].Timestamp <= threshold
+//@   ensures [ordered] withState ==> forall i, j int :: {result[i], result[j]} 0 <= i && i < j && j < len(result) ==> badger.keylt(NK(result[i]), NK(result[j]))
+//@   ensures [complete] withState ==> forall k mathint :: {badger.dbget(*s.snapshotsDB, k)} DbHasRec(*s.snapshotsDB, k, threshold) ==> exists i int :: {result[i]} 0 <= i && i < len(result) && NK(result[i]) == k
+//@   ensures [latest-records] !withState ==> forall i int :: {result[i]} 0 <= i && i < len(result) ==> DbRec(*s.snapshotsDB, result[i]) && DbSignerLatest(*s.snapshotsDB, threshold, NK(result[i]))
+//@   ensures [latest-complete] !withState ==> forall k mathint :: {badger.dbget(*s.snapshotsDB, k)} DbHasRec(*s.snapshotsDB, k, threshold) ==> exists i int :: {result[i]} 0 <= i && i < len(result) && kvval(result[i].Signer.PublicSpendKey) == keyhid(k)
